@@ -305,6 +305,10 @@ theorem findEarlierPara_placed (lh : Nat → Rat) (id idx : Nat) (st : PStyle) (
         simp only [placedLines]; exact paraPlaced_take _ _ _ _ _
       · cases h
 
+@[simp] theorem placedLines_cutEnd (lh : Nat → Rat) (f : CFrag) (pie : Bool) :
+    placedLines lh f.cutEnd pie = placedLines lh f pie := by
+  cases f <;> simp [CFrag.cutEnd, placedLines]
+
 mutual
 theorem findEarlierGo_placed (lh : Nat → Rat) (inCol : Bool) : (fs : List CFrag) →
     ∀ (kept : List CFrag) (r : Resume),
@@ -343,7 +347,7 @@ theorem findEarlierGo_placed (lh : Nat → Rat) (inCol : Bool) : (fs : List CFra
               obtain ⟨rfl, rfl⟩ := h
               have hsub := findEarlierFrag_placed lh inCol x x' r1 hfe
               intro p hp
-              simp only [placedList, List.mem_append, List.append_nil] at hp ⊢
+              simp only [placedList, List.mem_append, List.append_nil, placedLines_cutEnd] at hp ⊢
               left
               exact hsub _ p hp
             · cases h
@@ -654,7 +658,7 @@ theorem colsLoop_fits (lh : Nat → Rat) (env : ColEnv) (he : EnvFits lh env) (c
       · split
         · exact hs
         · rename_i f hf
-          have hfit := he.span c i s.y obs s.skip s.pie s.adj f hf
+          have hfit := he.span c i s.y obs (subSkipOf s.skip) s.pie s.adj f hf
           have hnew : LinesOk c obs (placedList lh (s.newChildren ++ [f]) pie0) := by
             rw [placedList_append, linesOk_append]
             refine ⟨hs, ?_⟩
